@@ -2,6 +2,7 @@
 
 import itertools
 import numpy as np
+import sciris as sc
 import atomica as at
 
 from mc import simspace, refprog
@@ -29,7 +30,7 @@ UNITS = ["probability", "rate", "number", "proportion", "nontransition", "fnpara
 INSTR = ["start", "startstop", "alloc", "capacity", "coverage", "tv_alloc"]
 
 
-def model(unit, nprog, npop, ncomp, instr, dt):
+def model(unit, nprog, npop, ncomp, instr, dt, tight=False):
     pops = ["pa", "pb"][:npop]
     spec = dict(
         comps=[dict(name="a", kind="ord", init={"pa": 100.0, "pb": 40.0}), dict(name="b", kind="ord", init={"pa": 20.0, "pb": 5.0}), dict(name="c", kind="ord", init=5.0)],
@@ -65,6 +66,12 @@ def model(unit, nprog, npop, ncomp, instr, dt):
         P += [dict(name="tp", fmt=None, val=0.4, targ=True, min=0, max=1), dict(name="drv", fmt="probability", fn="tp*0.5")]
         spec["links"].append(["a", "b", "drv"])
         base, outs = 0.4, [0.9, 0.1, 0.6]
+    if tight:
+        # framework limits that the value implied by the program set violates at some coverages (the databook values lie inside them)
+        tp = next(q for q in P if q["name"] == "tp")
+        tp["max"] = 30.0 if unit == "number" else 0.5
+        if unit not in ("probability", "rate", "fnparam", "number", "proportion"):
+            tp["min"] = 0.3
     comps = ["a", "b"][:ncomp]
     progs = [dict(name="P1", pops=list(pops), comps=comps, spend=300.0, uc=10.0, oneoff=True)]
     if nprog >= 2:
@@ -88,7 +95,7 @@ def model(unit, nprog, npop, ncomp, instr, dt):
     elif instr == "tv_alloc":
         ins["alloc"] = {"P1": {"t": [S0 + 1, S0 + 1.5, S0 + 2.5], "v": [100.0, 800.0, 50.0]}}
     spec["progs"] = dict(progs=progs, covouts=covouts, instr=ins)
-    spec["c13"] = dict(unit=unit, nprog=nprog, npop=npop, ncomp=ncomp, instr=instr)
+    spec["c13"] = dict(unit=unit, nprog=nprog, npop=npop, ncomp=ncomp, instr=instr, tight=tight)
     return spec
 
 
@@ -96,11 +103,30 @@ def cases(tier):
     dts = [1.0, 0.25] if tier == "quick" else [1.0, 0.25, 1 / 12, 0.5]
     for unit, nprog, npop, ncomp, instr, dt in itertools.product(UNITS, (1, 2, 3), (1, 2), (1, 2), INSTR, dts):
         yield model(unit, nprog, npop, ncomp, instr, dt)
+        yield model(unit, nprog, npop, ncomp, instr, dt, tight=True)
+        if instr in ("alloc", "capacity", "coverage", "tv_alloc"):
+            sp = model(unit, nprog, npop, ncomp, instr, dt)
+            sp["c13"]["late"] = True
+            yield sp
 
 
 def run_case(spec):
     w = World(spec)
-    r = w.run()
+    if spec["c13"].get("late"):
+        # the model is built with plain start/stop instructions; the overwrites are put into the built model's instructions afterwards
+        # (as an adjustment does during optimisation) and that same object is then integrated
+        from atomica.model import Model
+        from atomica.results import Result
+
+        plain = at.ProgramInstructions(start_year=w.instr.start_year, stop_year=w.instr.stop_year)
+        m_ = Model(w.P.settings, w.F, w.parset, w.progset, plain)
+        for attr in ("alloc", "capacity", "coverage"):
+            for k, v in getattr(w.instr, attr).items():
+                getattr(m_.program_instructions, attr)[k] = sc.dcp(v)
+        m_.process()
+        r = Result(model=m_, parset=w.parset, name="late")
+    else:
+        r = w.run()
     r0 = w.run(progs=False)
     m = r.model
     t = m.t
@@ -162,7 +188,7 @@ def run_case(spec):
                 break
     # targeted parameters while programs are active
     fw = {p["name"]: p for p in spec["pars"]}
-    nact = 0
+    nact = nclip = 0
     for co in P["covouts"]:
         par, pop = co["par"], co["pop"]
         pobj = m.get_pop(pop).get_par(par)
@@ -178,6 +204,7 @@ def run_case(spec):
                     v = v * src / dt
                 elif f.get("fmt") in ("probability", "rate"):
                     v = v / dt
+                nclip += int((f.get("min") is not None and v < f["min"]) or (f.get("max") is not None and v > f["max"]))
                 if f.get("min") is not None:
                     v = max(v, f["min"])
                 if f.get("max") is not None:
@@ -198,4 +225,4 @@ def run_case(spec):
             if f is not None and f.get("fn") is None and (p.name, pop.name) not in targeted:
                 if not np.array_equal(p.vals, r0.model.get_pop(pop.name).get_par(p.name).vals):
                     vs.append(V("untargeted-parameter-changed", f"{spec['c13']}: data parameter {p.name} in {pop.name} differs from the run without programs although no program targets it", None))
-    return dict(states=T, transitions=T - 1, traces=1, nontrivial=nact > 0, violations=vs[:6], counters=dict(active_checks=nact, **{"unit_" + spec["c13"]["unit"]: 1}))
+    return dict(states=T, transitions=T - 1, traces=1, nontrivial=nact > 0, violations=vs[:6], counters=dict(active_checks=nact, active_checks_with_binding_limit=nclip, **{"unit_" + spec["c13"]["unit"]: 1}))
